@@ -1,0 +1,76 @@
+//! Verification hooks. Compiled only with `--cfg hpo_verif`; without the flag this module and
+//! every call into it do not exist. Events are collected per thread and only while a sink is
+//! installed.
+use std::cell::RefCell;
+
+/// One step of the builder's internal algorithms
+#[derive(Debug, Clone, PartialEq, Eq)]
+pub enum Event {
+    /// `connect_all_terms` starts
+    ConnectBegin,
+    /// `connect_all_terms` is done
+    ConnectEnd,
+    /// `create_cache_of_grandparents(term)` starts
+    CacheEnter(u32),
+    /// `create_cache_of_grandparents(term)` wrote the cache entry
+    CacheReturn(u32, Vec<u32>),
+    /// `all_grandparents(term)`: the term is not cached, recurse
+    GrandparentsMiss(u32),
+    /// `all_grandparents(term)`: read the cache entry
+    GrandparentsRead(u32),
+    /// `link_*_term(term, id)` starts; `already` = the id is already linked to the term
+    LinkVisit {
+        /// 0 gene, 1 omim, 2 orpha
+        kind: u8,
+        /// term id
+        term: u32,
+        /// annotation id
+        id: u32,
+        /// the id was already present
+        already: bool,
+    },
+    /// `link_*_term(term, id)` returns
+    LinkLeave {
+        /// 0 gene, 1 omim, 2 orpha
+        kind: u8,
+        /// term id
+        term: u32,
+        /// annotation id
+        id: u32,
+        /// the id was already present when the call started
+        already: bool,
+    },
+    /// `annotate_*` returns
+    AnnotateEnd(u8),
+    /// `Arena::insert(id)`; `present` = the id already has a slot
+    ArenaInsert {
+        /// term id
+        id: u32,
+        /// the id was already present
+        present: bool,
+        /// number of stored terms before the call (without the placeholder)
+        len: usize,
+    },
+}
+
+thread_local! {
+    static SINK: RefCell<Option<Vec<Event>>> = const { RefCell::new(None) };
+}
+
+/// Start collecting events on this thread
+pub fn install() {
+    SINK.with(|s| *s.borrow_mut() = Some(Vec::new()));
+}
+
+/// Stop collecting and return the events
+pub fn take() -> Vec<Event> {
+    SINK.with(|s| s.borrow_mut().take().unwrap_or_default())
+}
+
+pub(crate) fn emit(e: Event) {
+    SINK.with(|s| {
+        if let Some(v) = s.borrow_mut().as_mut() {
+            v.push(e);
+        }
+    });
+}
